@@ -357,6 +357,23 @@ def rule_owned_equals_borrowed(rep, pdb):
         rule = "the consuming operator impl is one forwarding call to a borrowing impl of the same trait with the operands in the same order"
         n += 1
         if fw is None:
+            # not forwarding: the owned and the borrowed form are then identical when each is, on its own, the definitional element-wise
+            # loop of the trait's operator (same operator, operand order, co-indexing, full range: the rule instances of C03 / C15)
+            both = False
+            try:
+                from .common import rule_elementwise
+                from .report import Report as _R
+                tmp = _R("tmp")
+                for g_ in [fn] + cands:
+                    if forwards_to(pdb, g_) is None:
+                        rule_elementwise(tmp, pdb, g_)
+                both = bool(tmp.results) and not tmp.violations()
+            except Exception:
+                both = False
+            if both:
+                rep.add(key, rule + " (or both forms are, each on its own, the definitional element-wise loop)", True, fn["body"],
+                        "owned and borrowed forms are both the element-wise loop of the operator", where="%s:%d" % (fn["file"], fn["span"][0]))
+                continue
             rep.bad(key, rule, fn["body"], "body is not a single forwarding call", where="%s:%d" % (fn["file"], fn["span"][0]))
             continue
         callee, idxs, node = fw
